@@ -56,6 +56,10 @@ func b2v(b bool) Value { return BoolV(b) }
 
 // Binary evaluates a non-logical binary operator.
 func (it *Interp) Binary(op string, l, r Value) Value {
+	if op == "==" || op == "!=" {
+		big(l)
+		big(r)
+	}
 	if op == "==" {
 		return b2v(Equal(l, r))
 	}
@@ -191,6 +195,7 @@ func (it *Interp) binaryRaw(op string, l, r Value) Value {
 			if b, ok := r.(StrV); ok {
 				rs = string(b)
 			} else {
+				big(r)
 				rs = it.Pol.Str(r, 0)
 				it.noteMapRender(r)
 			}
@@ -348,6 +353,7 @@ func (it *Interp) toStringIdx(v Value) (string, bool) {
 		return string(x), true
 	}
 	it.noteMapRender(v)
+	big(v)
 	return it.Pol.Str(v, 0), true
 }
 
@@ -586,6 +592,9 @@ func (it *Interp) noteMapRender(v Value) {
 
 // CopyValue is the copy() builtin: deep copy, immutable -> mutable.
 func (it *Interp) CopyValue(v Value, depth int) Value {
+	if depth == 0 {
+		big(v)
+	}
 	if depth > 200 {
 		abort("size: nesting beyond reference bound")
 	}
@@ -612,3 +621,49 @@ func (it *Interp) CopyValue(v Value, depth int) Value {
 func f2i(f float64) int64 { return int64(f) }
 
 var _ = math.Inf
+
+// TreeSize returns the number of nodes of v when shared sub-structures are
+// expanded (what rendering, copying or comparing the value costs), stopping
+// at limit.
+func TreeSize(v Value, limit int) int {
+	n := 0
+	var walk func(x Value, d int)
+	walk = func(x Value, d int) {
+		if n > limit || d > 300 {
+			n = limit + 1
+			return
+		}
+		n++
+		switch y := x.(type) {
+		case *ArrV:
+			for i := 0; i < y.N && n <= limit; i++ {
+				walk(y.At(i), d+1)
+			}
+		case *MapV:
+			for _, e := range y.Ms.M {
+				if n > limit {
+					return
+				}
+				walk(e, d+1)
+			}
+		case *ErrV:
+			walk(y.V, d+1)
+		case StrV:
+			n += len(y) / 16
+		case BytesV:
+			n += len(y) / 16
+		}
+	}
+	walk(v, 0)
+	return n
+}
+
+const maxTree = 50000
+
+// big aborts the case when expanding v is beyond the reference's bound
+// (exponentially shared structures).
+func big(v Value) {
+	if TreeSize(v, maxTree) > maxTree {
+		abort("size: value too large to render / copy / compare")
+	}
+}
